@@ -92,8 +92,9 @@ package kmipclient
 //@   ensures r0 == nil && old(c.version) == nil && discovered(lastResp(c)) ==> forall k int :: 0 <= k && k < len(discoverPl(lastResp(c)).ProtocolVersion) && contains(c.supportedVersions, discoverPl(lastResp(c)).ProtocolVersion[k]) ==> verLE(discoverPl(lastResp(c)).ProtocolVersion[k], *c.version)
 //@   ensures old(c.version) == nil && ite(len(c.middlewares) == 0, rtErr, cmwErr) == nil && discovered(lastResp(c)) && (exists k int :: 0 <= k && k < len(discoverPl(lastResp(c)).ProtocolVersion) && contains(c.supportedVersions, discoverPl(lastResp(c)).ProtocolVersion[k])) ==> r0 == nil
 //@   ensures old(c.version) == nil && (ite(len(c.middlewares) == 0, rtErr, cmwErr) == nil) && noDiscovery(lastResp(c)) ==> ite(contains(c.supportedVersions, kmip.V1_0), r0 == nil && *c.version == kmip.V1_0, r0 != nil)
+//@   ensures old(c.version) == nil && transportErr(c) == nil && oneItem(lastResp(c)) && lastResp(c).BatchItem[0].ResultStatus != kmip.ResultStatusSuccess && !noDiscovery(lastResp(c)) ==> r0 != nil && r0 == itemErrRet && itemErrStatus == lastResp(c).BatchItem[0].ResultStatus && itemErrReason == lastResp(c).BatchItem[0].ResultReason && itemErrMsg == lastResp(c).BatchItem[0].ResultMessage
 //@   modifies c.version, c.conn, c.conn.closed.v
-//@   ghostmod cmwCalls, cmwSelf, cmwNext, cmwCtx, cmwMsg, cmwRet, cmwErr, rtCalls, rtCtx, rtMsg, rtRet, rtErr, transmissions, dials, lastErrRetryable, connBroken, connClosed
+//@   ghostmod cmwCalls, cmwSelf, cmwNext, cmwCtx, cmwMsg, cmwRet, cmwErr, rtCalls, rtCtx, rtMsg, rtRet, rtErr, transmissions, dials, lastErrRetryable, connBroken, connClosed, itemErrRet, itemErrStatus, itemErrReason, itemErrMsg
 //@   loop 0 invariant -1 <= rangeindex && rangeindex < len(pl.ProtocolVersion)
 //@   loop 0 invariant best != nil ==> contains(c.supportedVersions, *best) && contains(pl.ProtocolVersion, *best)
 //@   loop 0 invariant forall k int :: 0 <= k && k <= rangeindex && contains(c.supportedVersions, pl.ProtocolVersion[k]) ==> best != nil && verLE(pl.ProtocolVersion[k], *best)
